@@ -44,6 +44,12 @@ pub fn run(rng: &mut Rng, n: usize, out: &mut Out, which: &str) {
                     out.count("interrupted_searches_before_observation");
                 }
             }
+            // ... and now and then a COMPLETED shallow search of this very position: what it leaves in the table (a best move,
+            // usually a quiet one) must not leak into the selection either
+            if i % 4 == 1 && !ms.is_empty() && crate::csearch::nodes_capped(&b, 2, 4000) < 4000 {
+                out.run(&mut st, &format!("s.go {} {} none", bt, 1 + (i % 8) / 4));
+                out.count("completed_searches_before_observation");
+            }
             out.run(&mut st, &format!("qset {}", bt));
         }
     }
